@@ -16,6 +16,19 @@ Lemma lender_ops_pinned :
    ("drop", "from_raw", "")].                (* site 23 *)
 Proof. reflexivity. Qed.
 
+(** Every public method of [Lender] / [Loan] and the internal [BiArc] getter it goes
+    through: both Loan accessors use the CONDITIONAL load [get_if_shared] (model
+    steps [BGet] / [BGetRef]); only [Lender::shared] reads unconditionally. *)
+Definition lender_accessors_stmt : Prop :=
+  lender_accessors =
+  [("Lender", "pub new", "");
+   ("Lender", "pub lend", "try_clone");
+   ("Lender", "pub shared", "get_unconditional");
+   ("Loan", "pub get_ref", "get_if_shared");
+   ("Loan", "pub get_mut", "get_if_shared")].
+Lemma lender_accessors_proof : lender_accessors_stmt.
+Proof. reflexivity. Qed.
+
 Record BInv (g : bstate) : Prop := {
   k_borrows : borrows (sh g) = n_at BLend g + n_at BShared g;
   k_lown : 1 <= n_at BLend g + n_at BShared g -> b2n (lown (sh g)) = 1;
@@ -144,9 +157,12 @@ Definition revoked_after_lender_drop_stmt : Prop :=
   llive (sh g) = false ->
   state (sh g) = false
   /\ (forall sched', llive (sh (brun sched' g)) = false)
-  /\ forall (t : nat) (l : blocal) (o : bop),
-     at_ g t l -> bpc_of l = BGet ->
-     at_ (exec btid bstep g (BEv t o)) t (BL BIdle (loans l) 4).
+  /\ (forall (t : nat) (l : blocal) (o : bop),
+      at_ g t l -> bpc_of l = BGet ->
+      at_ (exec btid bstep g (BEv t o)) t (BL BIdle (loans l) 4))
+  /\ (forall (t : nat) (l : blocal) (o : bop),
+      at_ g t l -> bpc_of l = BGetRef ->
+      at_ (exec btid bstep g (BEv t o)) t (BL BIdle (loans l) 9)).
 Lemma llive_monotone g e g' : bgstep e g = Some g' -> llive (sh g) = false -> llive (sh g') = false.
 Proof.
   intros Hs Hl. apply gstep_inv in Hs. destruct Hs as (l & l' & _ & Hst & _).
@@ -170,9 +186,9 @@ Proof.
     rewrite Hl in K4. cbn in K4. lia. }
   split; auto. split.
   - intros sched'. apply llive_run; auto.
-  - intros t l o Hat Hpc. unfold exec, gstep. cbn [btid]. unfold at_ in Hat. rewrite Hat.
-    unfold bstep. rewrite Hpc, Hst. change state_shared with true. cbn [Bool.eqb].
-    unfold at_. cbn [th]. eapply nth_error_upd_same; eauto.
+  - split; intros t l o Hat Hpc; unfold exec, gstep; cbn [btid]; unfold at_ in Hat; rewrite Hat;
+      unfold bstep; rewrite Hpc, Hst; change state_shared with true; cbn [Bool.eqb];
+      unfold at_; cbn [th]; eapply nth_error_upd_same; eauto.
 Qed.
 
 (** The allocation is freed at most once, never while any handle is live (in
@@ -209,7 +225,7 @@ Proof.
     assert (Hpcs : forall p, bpc_of l = p -> is_pc p l = 1) by (intros p <-; unfold is_pc; destruct (bpc_of l); reflexivity).
     destruct (bpc_of l) eqn:Hpc; try congruence;
       try (rewrite (Hpcs _ eq_refl) in G1); try (rewrite (Hpcs _ eq_refl) in G2); try (rewrite (Hpcs _ eq_refl) in G3);
-      try (assert (1 <= loans l) by (apply Kown; rewrite Hpc; reflexivity));
+      try (assert (1 <= loans l) by (apply Kown; reflexivity));
       destruct (b2n_cases (lown (sh g))) as [[_ E1]|[_ E1]], (b2n_cases (llive (sh g))) as [[_ E2]|[_ E2]];
       rewrite ?E1, ?E2 in *; lia.
   - intros [H0 Hq]. specialize (K7 H0).
